@@ -418,4 +418,21 @@ theorem pySlice_range_length (n i j : Nat) (hj : j ≤ n) (hij : i ≤ j) :
   simp; omega
 
 
+
+theorem squeezeImg_mem (isnan : Nat → Bool) (w : Nat) (img : List (List (Option Nat))) (row : List (Option Nat))
+    (hrow : row ∈ (squeezeImg isnan w img).1) (k : Nat) (hk : some k ∈ row) :
+    ∃ row' ∈ img, some k ∈ row' := by
+  unfold squeezeImg at hrow
+  simp only [List.mem_map, List.mem_filter] at hrow
+  obtain ⟨r0, ⟨hr0, _⟩, rfl⟩ := hrow
+  refine ⟨r0, hr0, ?_⟩
+  obtain ⟨c, _, hc⟩ := List.mem_map.mp hk
+  have : r0[c]? = some (some k) := by
+    unfold List.getD at hc
+    cases h : r0[c]? with
+    | none => simp [h] at hc
+    | some v => simp [h] at hc; rw [hc]
+  exact List.mem_of_getElem? this
+
+
 end Pew.Sync
